@@ -221,6 +221,18 @@ class _HiddenPart(metaclass=StableHashMeta):
     v: Optional[int] = field(default=None, metadata={"type": "Element"})
 
 
+@dataclass
+class _HiddenPart2(metaclass=StableHashMeta):
+    class Meta:
+        name = "part"
+        namespace = "urn:e"
+
+    w: Optional[str] = field(default=None, metadata={"type": "Attribute"})
+
+
+# A second caller resolves the same annotation to another class.
+GLOBALNS2 = {"HiddenPart": _HiddenPart2}
+
 # The annotations of NeedsGlobals name this class as "HiddenPart", which no module defines: they resolve
 # only through SerializerConfig(globalns=GLOBALNS).
 GLOBALNS = {"HiddenPart": _HiddenPart}
